@@ -448,6 +448,32 @@ func immutStream(r *Run) {
 			}
 		}
 	}
+	// a fixed family: drops NESTED in the caller's containers on every path that resolves them for printing or comparing
+	// (a printed map, an array converted to a string, joined, sorted, compared, the needle of a contains): the caller's
+	// containers still hold their drops afterwards
+	{
+		i := func(n int64) *V { return VInt(0, n) }
+		envs := []map[string]*V{
+			{"page": VStrMap(SKV("tags", VAnys(VDrop(VStr("x")), VDrop(i(1)))), SKV("title", VDrop(VStr("t")))), "list": VAnys(VAnys(VDrop(VStr("a")), VStr("b")), VAnys(VDrop(VDrop(i(2)))))},
+			{"page": VAnys(VStrMap(SKV("k", VDrop(i(2)))), VStrMap(SKV("k", VDrop(VNil())))), "list": VAnys(VDrop(VAnys(VDrop(i(1)))), VDrop(VStr("z")))},
+		}
+		tmpls := []string{"{{ page }}", "{{ list }}|{{ list | join: ',' }}", "{{ page | append: '' }}|{{ list | append: '' }}", "{% if 'xax' contains list %}T{% endif %}{% if list contains 'z' %}T{% endif %}",
+			"{% if page == page %}T{% endif %}{% if list == page %}T{% endif %}{% case list %}{% when page %}T{% endcase %}", "{{ list | sort | join }}|{{ list | sort_natural | join }}|{{ list | uniq | size }}|{{ list | compact | size }}",
+			"{{ page | sort: 'k' | size }}|{{ page | map: 'k' | join }}|{{ page.tags | join }}|{{ page.title }}", "{% for x in list %}{{ x }};{% endfor %}{% for p in page %}{{ p }};{% endfor %}", "{{ page | json }}|{{ list | inspect }}"}
+		for ei, env := range envs {
+			for ti, src := range tmpls {
+				if !r.Mine() {
+					continue
+				}
+				c := immutCaseT{cfg: engineCfg{}, srcs: []string{src}, envs: []map[string]*V{env}, ops: []immutOp{{0, 0, 'R'}, {0, 0, 'R'}, {0, 0, 'S'}}}
+				cl := c.line()
+				res := immutCase(r, c, cl)
+				r.Count(fmt.Sprintf("fixed-family nested-drops %d/%d", ti, ei))
+				r.Nontrivial(cl)
+				r.Emit(cl, res)
+			}
+		}
+	}
 	// a second fixed family: templates with per-render state (cycle counters, assign/capture, loop
 	// variables, forloop) rendered, then rendered with bindings that make the render FAIL part-way
 	// (inside the loop, after some state has been built up), then rendered again with the first bindings
